@@ -57,7 +57,11 @@ def expand(arg):
                 "replay of history %r diverged from the recorded state" %
                 (describe(sysm, hist), ))
         for op in sysm.enabled(st):
-            s2 = copy.deepcopy(st)
+            # (deepcopy keeps the sharing of identical array objects but not
+            # of distinct views on one buffer; systems whose states contain
+            # such views ask for a fresh replay per transition instead)
+            s2 = rebuild(sysm, hist) if getattr(sysm, "replay_per_op", False) \
+                else copy.deepcopy(st)
             s2, msgs, label = sysm.step(s2, op, check=True)
             acc.count("transitions")
             acc.outcome(label)
